@@ -874,9 +874,18 @@ func driveEllipses(sh *Shards, n int, stats map[string]int) {
 			c.F[0] = f32j(-g(crx)) // a negative radius means its absolute value
 		}
 		if count%3 == 1 {
-			// the same rotation spelled with another number of whole turns (negative, or beyond one turn)
-			c.F[2] = f32j(c.F[2].float() + []float32{-1, 1, -2, 3}[count/3%4])
-			stats["ellipses.rotation_other_turns"]++
+			// the same rotation spelled with another number of whole turns (negative, or beyond one turn) - only where the
+			// float32 sum is exact, so that the rotation passed is still the rotation of the hint: quarter turns take any
+			// number of turns, other angles t >= 1/2 become t - 1 (exact by Sterbenz' lemma).  (Diametral chords make the
+			// centre ill-conditioned in the rotation: a spelling that is 2e-7 turns off moves the arc by 0.02 units.)
+			t := c.F[2].float()
+			if t*4 == float32(int(t*4)) {
+				c.F[2] = f32j(t + []float32{-1, 1, -2, 3}[count/3%4])
+				stats["ellipses.rotation_other_turns"]++
+			} else if t >= 0.5 {
+				c.F[2] = f32j(t - 1)
+				stats["ellipses.rotation_other_turns"]++
+			}
 		}
 		c.Fl = []int{b2i(large), b2i(sweep)}
 		t.doHint(c, hint)
